@@ -391,6 +391,22 @@ def reprojerrApi (dt : Dtype) (K : Mat3 α) (ext : Option (SE3 α)) (reduction :
   | _ => none
 
 
+
+/-! ## `knn(…, sorted=False)`: `topk` returns the `k` smallest (largest) in an unspecified order -/
+
+/-- contract of `topk(k, largest, sorted=False)` on the returned indices: `topkOk` without the order clause -/
+def topkOkUnsorted (largest : Bool) (vals : List α) (kk : Nat) (idx : List Nat) : Bool :=
+  idx.length == kk
+  && idx.all (fun i => decide (i < vals.length))
+  && idx.Nodup
+  && idx.all (fun i => (List.range vals.length).all fun j =>
+        idx.contains j || leB largest (vals.getD i (k 0)) (vals.getD j (k 0)))
+
+/-- the `knn` entry point with its `sorted` flag: `topk` is the sorted kernel, `topkU` the unsorted one -/
+def knnApiS (topk topkU : Bool → List α → Nat → List Nat) (D : Nat) (o : Norm) (largest sorted : Bool) (kk : Nat)
+    (ref nbr : List (Pt α)) : Option (List (List α × List Nat)) :=
+  if sorted then knnApi topk D o largest kk ref nbr else knnApi topkU D o largest kk ref nbr
+
 /-! ## camera helpers on batches: torch broadcasting of `points (bp…, n, 3)`, `intrinsics (bk…, 3, 3)`, `extrinsics (be…, 7)`,
 `pixels (bp…, n, 2)`, `depth (bd…, n)` (C06's `Batch.broadcastShapes` / `Batch.proj`); `none` = the shapes do not broadcast -/
 
